@@ -18,6 +18,9 @@ type c04Case struct {
 	// BulkN (windowed wrappers): that many quiet samples (in-flight 1: the window cannot close) come first, so that
 	// the first window folds tens of thousands of samples - counts around 2^16 and 2^17 on purpose
 	BulkN int `json:"bulk_n,omitempty"`
+	// Times: the sample list is fed that many times over (histories of thousands of samples: counters that reach a
+	// threshold, probes that recur, estimates that sit at a bound for long)
+	Times int `json:"times,omitempty"`
 }
 
 func genC04(t *rapid.T) c04Case {
@@ -52,6 +55,7 @@ func genC04(t *rapid.T) c04Case {
 		genUnset(t, &c.Cfg) // short constructors and parameters left to the library's defaults
 	}
 	c.Samples = genSamples(t, c.Cfg, 400)
+	c.Times = rapid.SampledFrom([]int{1, 1, 1, 1, 1, 1, 1, 3, 10, 30}).Draw(t, "times")
 	if (c.Cfg.Windowed || c.Cfg.Outer2 == "windowed") && rapid.IntRange(0, 9).Draw(t, "bulk") == 0 {
 		c.BulkN = rapid.SampledFrom([]int{32767, 65534, 65535, 65535, 65536, 131071}).Draw(t, "bulkN")
 		for i := range c.Samples {
@@ -102,7 +106,15 @@ func runC04(_ *testing.T, c c04Case) kit.Outcome {
 			return kit.Viol(c.Cfg.Algo+":panic", "quiet sample %d of %d panicked: %v", j, c.BulkN, p)
 		}
 	}
-	for i, s := range c.Samples {
+	times := c.Times
+	if times < 1 {
+		times = 1
+	}
+	all := make([]Sample, 0, len(c.Samples)*times)
+	for r := 0; r < times; r++ {
+		all = append(all, c.Samples...)
+	}
+	for i, s := range all {
 		before := b.Outer.EstimatedLimit()
 		inf := s.inflight(before)
 		if inf > maxInf {
